@@ -45,6 +45,8 @@ OPEN_TYPE_ber_get(const asn_codec_ctx_t *opt_codec_ctx,
     void *memb_ptr;   /* Pointer to the member */
     void **memb_ptr2; /* Pointer to that pointer */
     void *inner_value;
+    void **inner_value2; /* What the decoder is given */
+    int inner_is_pointer; /* The alternative is kept by reference */
     asn_dec_rval_t rv;
 
     if(!(elm->flags & ATF_OPEN_TYPE)) {
@@ -76,15 +78,24 @@ OPEN_TYPE_ber_get(const asn_codec_ctx_t *opt_codec_ctx,
         }
     }
 
-    inner_value =
-        (char *)*memb_ptr2
-        + elm->type->elements[selected.presence_index - 1].memb_offset;
+    /* An alternative may be kept by reference (a recursive type, for one) */
+    if(elm->type->elements[selected.presence_index - 1].flags & ATF_POINTER) {
+        inner_value2 = (void **)((char *)*memb_ptr2
+            + elm->type->elements[selected.presence_index - 1].memb_offset);
+        inner_is_pointer = 1;
+    } else {
+        inner_value = (char *)*memb_ptr2
+            + elm->type->elements[selected.presence_index - 1].memb_offset;
+        inner_value2 = &inner_value;
+        inner_is_pointer = 0;
+    }
 
     ASN_DEBUG("presence %d\n", selected.presence_index);
 
     rv = selected.type_descriptor->op->ber_decoder(
-        opt_codec_ctx, selected.type_descriptor, &inner_value, ptr, size,
+        opt_codec_ctx, selected.type_descriptor, inner_value2, ptr, size,
         elm->tag_mode);
+    inner_value = *inner_value2;
     ADVANCE(rv.consumed);
     rv.consumed = 0;
     switch(rv.code) {
@@ -113,8 +124,12 @@ OPEN_TYPE_ber_get(const asn_codec_ctx_t *opt_codec_ctx,
             ASN_STRUCT_FREE(*selected.type_descriptor, inner_value);
             *memb_ptr2 = NULL;
         } else {
-            ASN_STRUCT_FREE_CONTENTS_ONLY(*selected.type_descriptor,
-                                          inner_value);
+            if(inner_is_pointer) {
+                ASN_STRUCT_FREE(*selected.type_descriptor, inner_value);
+            } else {
+                ASN_STRUCT_FREE_CONTENTS_ONLY(*selected.type_descriptor,
+                                              inner_value);
+            }
             memset(*memb_ptr2, 0, specs->struct_size);
         }
     }
@@ -130,6 +145,8 @@ OPEN_TYPE_xer_get(const asn_codec_ctx_t *opt_codec_ctx,
     void *memb_ptr;   /* Pointer to the member */
     void **memb_ptr2; /* Pointer to that pointer */
     void *inner_value;
+    void **inner_value2; /* What the decoder is given */
+    int inner_is_pointer; /* The alternative is kept by reference */
     asn_dec_rval_t rv;
 
     int xer_context = 0;
@@ -201,12 +218,21 @@ OPEN_TYPE_xer_get(const asn_codec_ctx_t *opt_codec_ctx,
         ASN__DECODE_FAILED;
     }
 
-    inner_value =
-        (char *)*memb_ptr2
-        + elm->type->elements[selected.presence_index - 1].memb_offset;
+    /* An alternative may be kept by reference (a recursive type, for one) */
+    if(elm->type->elements[selected.presence_index - 1].flags & ATF_POINTER) {
+        inner_value2 = (void **)((char *)*memb_ptr2
+            + elm->type->elements[selected.presence_index - 1].memb_offset);
+        inner_is_pointer = 1;
+    } else {
+        inner_value = (char *)*memb_ptr2
+            + elm->type->elements[selected.presence_index - 1].memb_offset;
+        inner_value2 = &inner_value;
+        inner_is_pointer = 0;
+    }
 
     rv = selected.type_descriptor->op->xer_decoder(
-        opt_codec_ctx, selected.type_descriptor, &inner_value, NULL, ptr, size);
+        opt_codec_ctx, selected.type_descriptor, inner_value2, NULL, ptr, size);
+    inner_value = *inner_value2;
     ADVANCE(rv.consumed);
     rv.consumed = 0;
     switch(rv.code) {
@@ -235,8 +261,12 @@ OPEN_TYPE_xer_get(const asn_codec_ctx_t *opt_codec_ctx,
                 ASN_STRUCT_FREE(*selected.type_descriptor, inner_value);
                 *memb_ptr2 = NULL;
             } else {
-                ASN_STRUCT_FREE_CONTENTS_ONLY(*selected.type_descriptor,
-                                              inner_value);
+                if(inner_is_pointer) {
+                    ASN_STRUCT_FREE(*selected.type_descriptor, inner_value);
+                } else {
+                    ASN_STRUCT_FREE_CONTENTS_ONLY(*selected.type_descriptor,
+                                                  inner_value);
+                }
                 memset(*memb_ptr2, 0, specs->struct_size);
             }
         }
@@ -293,6 +323,8 @@ OPEN_TYPE_uper_get(const asn_codec_ctx_t *opt_codec_ctx,
     void *memb_ptr;   /* Pointer to the member */
     void **memb_ptr2; /* Pointer to that pointer */
     void *inner_value;
+    void **inner_value2; /* What the decoder is given */
+    int inner_is_pointer; /* The alternative is kept by reference */
     asn_dec_rval_t rv;
 
     if(!(elm->flags & ATF_OPEN_TYPE)) {
@@ -326,12 +358,21 @@ OPEN_TYPE_uper_get(const asn_codec_ctx_t *opt_codec_ctx,
         }
     }
 
-    inner_value =
-        (char *)*memb_ptr2
-        + elm->type->elements[selected.presence_index - 1].memb_offset;
+    /* An alternative may be kept by reference (a recursive type, for one) */
+    if(elm->type->elements[selected.presence_index - 1].flags & ATF_POINTER) {
+        inner_value2 = (void **)((char *)*memb_ptr2
+            + elm->type->elements[selected.presence_index - 1].memb_offset);
+        inner_is_pointer = 1;
+    } else {
+        inner_value = (char *)*memb_ptr2
+            + elm->type->elements[selected.presence_index - 1].memb_offset;
+        inner_value2 = &inner_value;
+        inner_is_pointer = 0;
+    }
 
     rv = uper_open_type_get(opt_codec_ctx, selected.type_descriptor, NULL,
-                            &inner_value, pd);
+                            inner_value2, pd);
+    inner_value = *inner_value2;
     switch(rv.code) {
     case RC_OK:
         if(CHOICE_variant_set_presence(elm->type, *memb_ptr2,
@@ -351,8 +392,12 @@ OPEN_TYPE_uper_get(const asn_codec_ctx_t *opt_codec_ctx,
                 ASN_STRUCT_FREE(*selected.type_descriptor, inner_value);
                 *memb_ptr2 = NULL;
             } else {
-                ASN_STRUCT_FREE_CONTENTS_ONLY(*selected.type_descriptor,
-                                              inner_value);
+                if(inner_is_pointer) {
+                    ASN_STRUCT_FREE(*selected.type_descriptor, inner_value);
+                } else {
+                    ASN_STRUCT_FREE_CONTENTS_ONLY(*selected.type_descriptor,
+                                                  inner_value);
+                }
                 memset(*memb_ptr2, 0, specs->struct_size);
             }
         }
